@@ -131,7 +131,7 @@ theorem f64FromParts_nat (positive : Bool) (sig k : Nat) :
     FloatOrRange (ofF (f64FromParts positive sig (k : Int))) := by
   unfold f64FromParts
   have hk : (k : Int) ≥ 0 := Int.natCast_nonneg k
-  rw [show (k : Int).natAbs / 308 + 3 = (k / 308 + 2) + 1 by simp]
+  rw [show (k : Int).natAbs / Gen.fromPartsStep + 3 = (k / Gen.fromPartsStep + 2) + 1 by simp]
   rw [f64FromPartsLoop]
   simp only [hk, if_true]
   unfold FloatOrRange
@@ -288,7 +288,8 @@ theorem convertDefault_neg_zero (p : Parts) (hf : p.frac = none) (he : p.exp = n
     convertDefault p = .f64 0x8000000000000000 := by
   rw [convertDefault_fits p hf he hd (by rw [h0]; simp [u64Max])]
   simp only [hneg, h0, Bool.true_eq_false, if_false, true_or, if_true]
-  rfl
+  have : F64.neg (F64.ofU64 0) = 0x8000000000000000 := by decide +kernel
+  simp [this]
 
 /-! ## `float_roundtrip` build -/
 
@@ -304,8 +305,15 @@ theorem exponentOverflow_float (a b c : Bool) : FloatOrRange (exponentOverflow a
 
 theorem conv_float (p : Parts) : FloatOrRange (convertRoundtrip.conv p) := by
   unfold convertRoundtrip.conv FloatOrRange
-  repeat' split
-  all_goals simp
+  cases exact p with
+  | zero => exact .inl ⟨_, rfl⟩
+  | tiny => exact .inl ⟨_, rfl⟩
+  | huge => exact .inr rfl
+  | rat n d =>
+    simp only
+    cases (if d == 0 then none else roundNE64 p.neg n d) with
+    | some b => exact .inl ⟨_, rfl⟩
+    | none => exact .inr rfl
 
 theorem convertRoundtrip_of_intClass_none (p : Parts) (h : intClass p = none) :
     FloatOrRange (convertRoundtrip p) := by
